@@ -1284,12 +1284,40 @@ where
             .with_extensions(own_leaf.extensions().clone())
             .build();
 
-        let commit_message_bundle = mls_group.self_update_with_new_signer(
-            &self.provider,
-            &current_signer,
-            new_signer_bundle,
-            leaf_node_params,
-        )?;
+        // Only an admin may commit other members' proposals. A member that is not an admin
+        // commits a pure self-update: proposals queued locally stay queued instead of being
+        // swept into a commit that every other member would refuse as unauthorised while its
+        // author applies it.
+        let is_admin = self.is_leaf_node_admin(group_id, own_leaf)?;
+
+        // Same preconditions as MlsGroup::self_update_with_new_signer
+        if mls_group.pending_commit().is_some() {
+            return Err(Error::SelfUpdate(
+                MlsGroupStateError::PendingCommit.to_string(),
+            ));
+        }
+        if !mls_group.is_active() {
+            return Err(Error::SelfUpdate(
+                MlsGroupStateError::UseAfterEviction.to_string(),
+            ));
+        }
+
+        let commit_message_bundle = mls_group
+            .commit_builder()
+            .leaf_node_parameters(leaf_node_params)
+            .consume_proposal_store(is_admin)
+            .load_psks(self.provider.storage())
+            .map_err(|e| Error::SelfUpdate(e.to_string()))?
+            .build_with_new_signer(
+                self.provider.rand(),
+                self.provider.crypto(),
+                &current_signer,
+                new_signer_bundle,
+                |_| true,
+            )
+            .map_err(|e| Error::SelfUpdate(e.to_string()))?
+            .stage_commit(&self.provider)
+            .map_err(|e| Error::SelfUpdate(e.to_string()))?;
 
         // Serialize the message
         let serialized_commit_message = commit_message_bundle.commit().tls_serialize_detached()?;
